@@ -14,47 +14,72 @@ from core import Ctx, Violation, err_name, line, tensor_groups
 PROP = "C02"
 EXTRA_LEAN_MODULES = ["DirectVerif.Lemmas.C02Tensor", "DirectVerif.Lemmas.C02Sums"]
 MANIFEST = {
-    "text": "Lean 4 theorems over R/C (Mathlib) about the same scalar-polymorphic definitions the driver executes over Rat: "
+    "text": "Lean 4 theorems over R/C (Mathlib) about the same scalar-polymorphic definitions the driver executes over Rat. Scalars: "
             "complex_multiplication / conjugate / complex_division (non-zero divisor; zero divisor gives 0) / squared modulus / "
-            "complex_dot_product / root-sum-of-squares equal native complex arithmetic; the four-real-product matrix formula of "
-            "complex_mm / complex_bmm is the complex matrix product for every index type; expand and reduce are C-linear, "
-            "<E_S x, y> = <x, R_S y> for arbitrary maps, any finite coil and pixel index types, and R_S(E_S x) = x whenever "
-            "sum_i |S_i|^2 = 1 pointwise. Tied to the code by translated component formulas, safe_divide, and the tensor "
-            "expressions of complex_dot_product / reduce_operator / expand_operator / modulus / root_sum_of_squares (bridge "
-            "lemmas, definitional), and by exact differential correspondence on integer-valued float32 tensors of shape "
-            "(b, c, [s], h, w, 2) with the coil axis at every position.",
-    "note": "Trusted: Lean kernel (+propext, Classical.choice, Quot.sound), the AST translator, the tensor plumbing of the model "
-            "(row-major broadcasting, alongAxis sums, unsqueeze: validated by correspondence, not proved), torch elementwise "
-            "float32 arithmetic being exact on the integer / dyadic probe set, torch.mm/bmm being the real matrix product. "
-            "Floating-point range: the theorems are over R; the float32 formulas square their operands, so on the current "
-            "tree complex_division / modulus / root_sum_of_squares return nan / inf / 0 / inaccurate values for ordinary float32 "
-            "operands whose exact result is an ordinary float32 number (|b| >~ 1.8e19 or <~ 1e-19). The oracle reports these "
-            "with the stable keys float-range:<helper>:<class> (12 fixed, seed-independent probes; listed as known findings); "
-            "complex_multiplication / complex_dot_product / complex_mm / expand / reduce show no such deviation. Inside the "
-            "range where no intermediate leaves float32 every helper must agree with exact complex arithmetic "
-            "(key native-mismatch:<helper> otherwise).",
-    "technique": "Lean 4 proof (Mathlib complex numbers, finite sums, matrices) + AST translation bridge + exact differential "
-                 "correspondence + property oracle (exact adjointness on integer tensors)",
+            "complex_dot_product / root-sum-of-squares equal native complex arithmetic. Matrices: the four-real-product formula of "
+            "complex_mm / complex_bmm is the complex matrix product for every index type (cmm_eq_matrix_mul, cbmm_eq), and the row-list "
+            "products the driver runs (rmm, cmm) are Mathlib's matrix products for every n x m by m x p incl. 1 x m, n x 1, m = 0 "
+            "(rmm_eq_matrix_mul, cmm_eq_matrix_mul_rows). Coil operators, index level: expand and reduce are C-linear, "
+            "<E_S x, y> = <x, R_S y> for arbitrary maps and any finite coil / pixel index types, R_S(E_S x) = x when sum_i |S_i|^2 = 1. "
+            "Coil operators, TENSOR level (new): the flat row-major definitions the driver executes — torch broadcasting (bcastShape / "
+            "unflatten / bcastOffset / zipBcast), unsqueeze, alongAxis sums — are proved to refine to the index-level operators for "
+            "every shape pre ++ [c] ++ post (coil axis at any position, dim given as a non-negative or negative Python axis): "
+            "expandOp_spec / reduceOp_spec / rssSqT_spec (shape, length, every entry), expandOp_refines / reduceOp_refines / "
+            "rssSqT_refines, and hence adjoint_tensor (cdot (E x).data y.data = cdot x.data (R y).data with the model's own cdot on the "
+            "flat data), reduce_expand_id_tensor (R(E x) = x as tensors when the computed rss^2 is 1 everywhere), expandOp_linear / "
+            "reduceOp_linear, cdotT_singleton; view_as_complex / view_as_real are mutually inverse (viewAsComplex_viewAsReal, "
+            "viewAsReal_viewAsComplex). Tied to the code by translated component formulas, safe_divide, the tensor expressions of "
+            "complex_dot_product / reduce_operator / expand_operator / modulus / root_sum_of_squares (bridge lemmas, definitional), a "
+            "translated table of all 61 coil-operator call sites and inline re-implementations under direct/ with a decided "
+            "well-formedness predicate (coil_sites_wf; wf_site_axis / wf_inlineReduce_denotes / wf_inlineExpand_denotes hold for every "
+            "well-formed table), and by exact differential correspondence on integer-valued tensors of shape (b, c, [s], h, w, 2) with the "
+            "coil axis at every position, in contiguous / permuted / strided / offset / stride-0 layouts, float32 and float64, singleton "
+            "(broadcast) axes, with every argument checked to come back unmodified.",
+    "note": "Trusted: Lean kernel (+propext, Classical.choice, Quot.sound), the AST translator, torch elementwise float32/float64 "
+            "arithmetic being exact on the integer / dyadic probe set, torch.mm/bmm being the real matrix product (the model's rmm is "
+            "proved to be it), the line-protocol glue of Driver/C02.lean (argument parsing, axis range checks, error classes: validated by "
+            "correspondence). No longer trusted: the tensor plumbing of the model (now proved for equal shapes and for the coil layout; "
+            "general broadcasting of unequal ranks — cmul with dropped leading axes, singleton sensitivity axes — and sums over several "
+            "axes at once (cdotT with >= 2 axes) remain validated by correspondence only). Floating-point range: the theorems are "
+            "over R; the float32 formulas square their operands, so on the current tree complex_division / modulus / "
+            "root_sum_of_squares return nan / inf / 0 / inaccurate values for ordinary float32 operands whose exact result is an "
+            "ordinary float32 number (|b| >~ 1.8e19 or <~ 1e-19). The oracle reports these with the stable keys "
+            "float-range:<helper>:<class> (12 fixed, seed-independent probes; listed as known findings); complex_multiplication / "
+            "complex_dot_product / complex_mm / expand / reduce show no such deviation. Inside the range where no intermediate leaves "
+            "float32 every helper must agree with exact complex arithmetic (key native-mismatch:<helper> otherwise). Observation "
+            "outside the quantifier: root_sum_of_squares decides `complex` by the LAST axis having length 2 whatever complex_dim says "
+            "(modelled as coded, exercised by correspondence and oracle).",
+    "technique": "Lean 4 proof (Mathlib complex numbers, finite sums, matrices; core-Lean index arithmetic for the tensor refinement) + AST "
+                 "translation bridge + decided structural call-site table + exact differential correspondence + property oracle (exact "
+                 "adjointness on integer tensors, call histories on shared buffers, layouts, dtypes, real inline expressions evaluated)",
 }
 TRUSTED = [
     "Lean 4.33 kernel; axioms ⊆ {propext, Classical.choice, Quot.sound}",
     "harness/translate (Python AST -> Lean): component formulas, conjugate sign, safe_divide, tensor expressions of "
-    "complex_dot_product / reduce_operator / expand_operator / modulus / root_sum_of_squares",
-    "model tensor plumbing (zipBcast / sumAxis / unsqueeze / alongAxis) — validated by correspondence, not proved",
-    "torch float32 arithmetic exact on small integers and dyadic rationals; torch.mm / torch.bmm = real matrix product",
+    "complex_dot_product / reduce_operator / expand_operator / modulus / root_sum_of_squares, the coil-operator call-site table",
+    "model tensor plumbing beyond what Lemmas/C02Tensor.lean proves (broadcasting of operands of unequal rank / with singleton axes "
+    "other than the unsqueezed coil axis, sumAxes over >= 2 axes) and the driver's glue (parsing, axis range checks, error classes) "
+    "— validated by correspondence, not proved",
+    "torch float32 / float64 arithmetic exact on small integers and dyadic rationals; torch.mm / torch.bmm = real matrix product",
 ]
 ASSUMPTIONS = [
-    "correspondence inputs are integer-valued float32 tensors (|v| <= 20) so every product / sum is exact; divisors are either "
-    "dyadic (|b|^2 a power of two: exact) or general (the float32 quotient is mapped to the unique fraction with denominator |b|^2 "
+    "correspondence inputs are integer-valued float32 / float64 tensors (|v| <= 20) so every product / sum is exact; divisors are either "
+    "dyadic (|b|^2 a power of two: exact) or general (the quotient is mapped to the unique fraction with denominator |b|^2 "
     "within 1e-6 relative — bucket cdiv/general-tol)",
-    "modulus / root_sum_of_squares are compared on squares: the float32 root r is mapped to round(r*r) after checking |r - sqrt(round(r*r))| <= 1e-5*r",
+    "modulus / root_sum_of_squares are compared on squares: the root r is mapped to round(r*r) after checking |r - sqrt(round(r*r))| <= 1e-5*r",
     "float range (overflow / underflow of squares) is outside the theorems; the oracle reports the deviations of the current tree "
     "as violations with keys float-range:<helper>:<class> and requires agreement with exact arithmetic (rel. 1e-3 of the complex "
     "magnitude) for operand scales 1e-18..1e18 (common scale) / 1e-9..1e9 (mixed scales)",
+    "float16 / int64 arguments (outside the stated float32 quantifier) are exercised by the history oracle only: values must equal the "
+    "native result on small integers, float dtypes must be preserved",
+    "call sites inside whole-network forward methods are covered structurally (table + decided predicate) and by evaluating the written "
+    "expression / axis on tensors, not by running the network",
 ]
-RULE = ("shapes (b, c, [s], h, w, 2) with b,c,s,h,w in 1..3 (c = 1 included), coil axis at every position, broadcasting pairs, zero "
-        "divisors; non-trivial = more than one complex element and (for expand/reduce/cdot/rss) a summed/expanded axis of length >= 2; "
-        "distinct = distinct protocol line / oracle case key")
+RULE = ("shapes (b, c, [s], h, w, 2) with b,c,s,h,w in 1..3 (c = 1 included), coil axis at every position (positive and negative form), "
+        "broadcasting pairs incl. stride-0 and singleton sensitivity / image / data axes, zero divisors, matrix shapes 1..4 incl. rows, "
+        "columns, batch 1; memory layouts contiguous / permuted / strided / offset, float32 / float64; non-trivial = more than one complex "
+        "element and (for expand/reduce/cdot/rss) a summed/expanded axis of length >= 2; distinct = distinct protocol line + layout class "
+        "/ oracle case key")
 # float-range findings of the current tree (decided by the lead to be listed as `known:`); one key per (helper, failure class),
 # produced by the fixed probes FLOAT_RANGE_PROBES below, independent of VERIF_SEED
 PENDING_FINDINGS: list[str] = [
